@@ -141,8 +141,14 @@ def run_history(ns, rec, hist):
     w = ns.EoWriter()
     expect = []
     sanitize = False
+    early = None
     try:
-        for op in hist:
+        for k, op in enumerate(hist):
+            if k == len(hist) // 2 and k > 0 and len(hist) % 2 == 0:
+                # half-way through, the output so far is taken and a reader is opened on it (a partial message is
+                # inspected, logged ...) while the writer goes on: both must be left alone by what follows
+                snap = w.to_bytearray()
+                early = (snap, bytes(snap), ns.EoReader(snap), len(expect))
             if op[0] == "mode":
                 w.string_sanitization_mode = sanitize = op[1]
                 continue
@@ -167,6 +173,22 @@ def run_history(ns, rec, hist):
         rec.violation("write-raises", "valid write history raised %r" % ex, {"history": hist})
         return
     out = bytes(w.to_bytearray())
+    if early is not None:
+        snap, was, r0, n0 = early
+        rec.count("early-outputs-rechecked")
+        if bytes(snap) != was or out[:len(was)] != was:
+            rec.violation("readback-bytes", "the output taken after %d writes was %s; after the later writes the same object holds %s and the final output starts with %s" % (
+                n0, was.hex()[:80], bytes(snap).hex()[:80], out[:len(was)].hex()[:80]), {"history": hist, "bytes": out})
+            return
+        try:
+            for name, args, want in expect[:n0]:
+                got = getattr(r0, name)(*args)
+                if got != want:
+                    rec.violation("readback-bytes", "the reader opened on the output taken after %d writes reads %s%r as %r, written value reads as %r" % (n0, name, args, got, want), {"history": hist, "bytes": out})
+                    return
+        except Exception as ex:
+            rec.violation("read-raises", "the reader opened on the output taken after %d writes raised %r" % (n0, ex), {"history": hist, "bytes": out})
+            return
     r = ns.EoReader(out)
     kept = []
     for i, (name, args, want) in enumerate(expect):
